@@ -360,6 +360,23 @@ def r3_nesting_errors_raise(ctx, rep):
     cl = [x for x in eev if x.kind == "call" and call_name(x.node) == "self._cleanup"]
     ok = bool(rets) and bool(cl) and all(astq.path_implies(x, file_atom, {"lvl0": True}) is True for x in rets + cl)
     rep.ob("END closes the container only at block level 0", ok, "", py.nloc(e.test))
+    # any statement may carry a label; the one that matters here is END (`99 end`, the target of a `goto 99` in older code): if
+    # the pattern that recognises END does not accept a label in front of it the unit is never closed, and everything after it in
+    # the file is nested into it or rejected
+    key = next((k for k in ctx.regexes if k.split(".")[-1] == "END_RE" and ctx.regexes[k][3] == "sourceform"), None)
+    if key is None:
+        raise AnalysisError("END_RE not found")
+    pat, flags, node, _m = ctx.regexes[key]
+    rx = ctx.rx
+    try:
+        w = rx.subset_witness(rx.full(r"[0-9]+ +[Ee][Nn][Dd]( *([Ss][Uu][Bb][Rr][Oo][Uu][Tt][Ii][Nn][Ee]|[Ff][Uu][Nn][Cc][Tt][Ii][Oo][Nn])( +[a-z][a-z0-9_]*)?)?", 0),
+                              rx.match_lang(pat, flags))
+    except rx.Unsupported as e_:
+        raise AnalysisError(f"END_RE not understood: {e_}")
+    rep.ob("END_RE accepts a statement label in front of END", w is None,
+           "`<label> end [subroutine|function [name]]` is matched" if w is None else
+           f"`{w}` is an END statement with a label, which the pattern does not match: the procedure is not closed, the next program "
+           f"unit in the file is reported as unexpected and lost", py.nloc(node), witness=w)
     c = cs.arm_by_literal("contains")
     ok = len(c.errors) == 2
     rep.ob("misplaced / repeated CONTAINS are errors", ok, "", py.nloc(c.test))
